@@ -124,6 +124,15 @@ func repoDir() string {
 	return "/repo"
 }
 
+// evidenceDir: /verif/evidence describes runs against /repo only; a run against another tree (VERIF_REPO, used by
+// the mutant tools) writes its evidence into that tree's scratch area instead.
+func evidenceDir() string {
+	if d := os.Getenv("VERIF_REPO"); d != "" && d != "/repo" {
+		return filepath.Join(os.TempDir(), "verif-evidence-other-tree")
+	}
+	return filepath.Join(verifDir, "evidence")
+}
+
 func die2(format string, a ...any) {
 	fmt.Fprintf(os.Stderr, "vsim: "+format+"\n", a...)
 	os.Exit(2)
@@ -592,8 +601,8 @@ func report(id, tier string, seed uint64, pc propConf, sums []*summary, b *built
 		"violations":  len(real),
 	}
 	js, _ := json.MarshalIndent(ev, "", " ")
-	_ = os.MkdirAll(filepath.Join(verifDir, "evidence"), 0o755)
-	if err := os.WriteFile(filepath.Join(verifDir, "evidence", id+".json"), js, 0o644); err != nil {
+	_ = os.MkdirAll(evidenceDir(), 0o755)
+	if err := os.WriteFile(filepath.Join(evidenceDir(), id+".json"), js, 0o644); err != nil {
 		die2("%v", err)
 	}
 	fmt.Printf("vsim: %s %s: %d runs (%d distinct non-trivial, %d distinct interleavings), %.0f runs/h, sim time %d ms, %d violation(s), %d known, %.1fs\n",
